@@ -1,8 +1,8 @@
 (** Radix/LoadProofs.v — proofs about Radix/Load.v:
 
-    - [lookup_faithful_eq]: outside [guard_F1] the code as it is ([lookup true])
-      and the repaired code ([lookup false]) agree, for matchers that only look
-      at the value;
+    - [lookup_faithful_eq]: outside [guard_F1] the pinned code before fix e897fef
+      ([lookup true]) and the code as it is now ([lookup false]) agree, for matchers
+      that only look at the value;
     - [lookup_perm]: the search does not depend on the order of the entries;
     - invariants of [add] / [load]: one entry per expression, no empty entry,
       well-formed patterns;
@@ -384,7 +384,7 @@ Proof.
 Qed.
 
 (** order independence: interleaving the [Add]s of different expressions
-    differently never changes a lookup (for the code as it is and the repaired one) *)
+    differently never changes a lookup (for the code as it is now and for the pinned one) *)
 Theorem load_order_independent fa l l' (m : matcher) path :
   same_groups l l' ->
   find_in fa (load can_add l) path m = find_in fa (load can_add l') path m.
